@@ -80,10 +80,17 @@ def WFseg (s : Str) : Bool := s â‰  [] && !s.contains '/' && s â‰  ['.'] && s â‰
 /-- No byte below or at '/' (so `value ++ "/" ++ id` orders like the pair (value, id)). -/
 def SepSafe (s : Str) : Bool := s.all (fun ch => decide ('/' < ch))
 
-def Index.wfObj (i : Index) (o : Obj) : Bool := WFseg (i.sel.get o) && (i.unique || SepSafe (i.sel.get o))
+/-- For the ORDER of a non-unique index: the value has no byte â‰¤ '/'. -/
+def Index.wfObj (i : Index) (o : Obj) : Bool := i.unique || SepSafe (i.sel.get o)
 
-/-- The object's id and all its index values are clean path segments. -/
-def Cfg.wfObj (c : Cfg) (o : Obj) : Bool := WFseg o.id && c.indexes.all (fun i => WFseg (i.sel.get o))
+/-- A clean relative path: one or more clean segments separated by single slashes ("tasks/cpu" is, "a//b", "a/",
+"a/../b", "." and "" are not). -/
+def WFpath (s : Str) : Bool := (splitSlash s).all WFseg
+
+/-- The object's id is a clean relative path (one or more clean segments â€” the load service stores ids like
+"tasks/name") and every index value other than the id itself is a single clean path segment. -/
+def Cfg.wfObj (c : Cfg) (o : Obj) : Bool :=
+  WFpath o.id && c.indexes.all (fun i => i.sel == .id || WFseg (i.sel.get o))
 
 /-- Prefix and index names are clean segments, index names are distinct. -/
 def Cfg.wf (c : Cfg) : Bool :=
